@@ -166,25 +166,55 @@ Proof.
 Qed.
 
 (* ---- C09, values ---- *)
-Lemma read_value_at_ok mode txlog vlogs vlen off hval v :
-  read_value_at H true mode txlog vlogs vlen off hval = Ok v -> len v = vlen /\ hval = H v.
+Lemma len_repeat (x : N) n : len (repeat x n) = N.of_nat n.
+Proof. unfold len. rewrite repeat_length. reflexivity. Qed.
+
+Lemma value_check_ok vlen hval b n v :
+  value_check H true vlen hval b n = Ok v -> len b = vlen -> v = b /\ n = vlen /\ hval = H v.
 Proof.
-  unfold read_value_at. destruct (_ && _ && _); [discriminate|].
-  match goal with |- bind ?r _ = _ -> _ => destruct r as [b| |]; cbn [bind]; try discriminate end.
-  cbn [andb]. destruct (N.eqb_spec (len b) vlen) as [L|]; cbn [negb orb]; [|discriminate].
+  unfold value_check. cbn [andb]. intros E Lb.
+  destruct (N.eqb_spec vlen n) as [->|]; cbn [negb orb] in E; [|discriminate].
+  rewrite <- Lb, take_all in E.
   destruct (list_eq_dec N.eq_dec hval (H b)) as [Eh|]; [|discriminate].
-  intros E. assert (v = b) by congruence. subst. split; auto.
+  assert (v = b) by congruence. subst. auto.
 Qed.
 
-(* a value read with the committed (length, digest) pair, from whatever bytes at whatever offset:
-   an error, or the committed value, or a collision *)
-Theorem corrupt_value_detected v :
-  forall mvl mode txlog vlogs off v',
-    read_value H mvl mode txlog vlogs (len v) off (H v) = Ok v' -> v' = v \/ Collision.
+Lemma raw_read_len mode txlog vlogs vlen off b : raw_read mode txlog vlogs vlen off = Ok b -> len b = vlen.
 Proof.
-  intros mvl mode txlog vlogs off v'. unfold read_value.
+  unfold raw_read. destruct (fetch_vlog mode txlog vlogs (vlog_id off)) as [log| |]; cbn [bind]; try discriminate.
+  destruct (off_negative off); [discriminate|]. unfold read_at.
+  destruct (N.leb_spec (vlog_off off + vlen) (len log)); [|discriminate].
+  intros E. assert (b = take vlen (drop (vlog_off off) log)) by congruence. subst.
+  rewrite len_take, len_drop. lia.
+Qed.
+
+(* whatever the cache holds (any content at all: entries put before validation, by earlier failed
+   reads, for other lengths), a value that readValueAt returns has the requested length and digest *)
+Lemma read_value_at_ok mode txlog vlogs c vlen off hval v :
+  fst (read_value_at H true mode txlog vlogs c vlen off hval) = Ok v -> len v = vlen /\ hval = H v.
+Proof.
+  unfold read_value_at. destruct (_ && _ && _); [discriminate|].
+  destruct (N.ltb_spec 0 vlen) as [Pos|Z].
+  - destruct (cache_lookup c off) as [bval|].
+    + cbn [fst]. intros E. apply value_check_ok in E.
+      * destruct E as (-> & _ & E). split; auto. rewrite len_take, len_app, len_repeat. lia.
+      * rewrite len_take, len_app, len_repeat. lia.
+    + destruct (raw_read mode txlog vlogs vlen off) as [b| |] eqn:R; cbn [fst]; try discriminate.
+      intros E. pose proof (raw_read_len _ _ _ _ _ _ R) as Lb.
+      apply value_check_ok in E; auto. destruct E as (-> & _ & E). auto.
+  - cbn [fst]. intros E. assert (vlen = 0) by lia. subst.
+    apply value_check_ok in E; [|reflexivity]. destruct E as (-> & _ & E). auto.
+Qed.
+
+(* a value read with the committed (length, digest) pair, from whatever bytes at whatever offset
+   and with whatever the value cache holds: an error, or the committed value, or a collision *)
+Theorem corrupt_value_detected v :
+  forall mvl mode txlog vlogs c off v',
+    fst (read_value H mvl mode txlog vlogs c (len v) off (H v)) = Ok v' -> v' = v \/ Collision.
+Proof.
+  intros mvl mode txlog vlogs c off v'. unfold read_value.
   destruct (N.eqb_spec (len v) 0) as [Z|NZ].
-  - intros E. left. rewrite (len_nil v Z). congruence.
+  - cbn [fst]. intros E. left. rewrite (len_nil v Z). congruence.
   - destruct (mvl <? len v); [discriminate|].
     intros E. apply read_value_at_ok in E as [_ E]. apply H_inj in E as [E|C]; auto.
 Qed.
@@ -193,48 +223,58 @@ Qed.
    (vlen', off') next to the committed digest: the read then fails, or returns the committed value,
    or returns the EMPTY value because vlen' = 0, or a collision has been found *)
 Theorem corrupt_entry_value_partial v :
-  forall mvl mode txlog vlogs vlen' off' v',
-    read_value H mvl mode txlog vlogs vlen' off' (H v) = Ok v' ->
+  forall mvl mode txlog vlogs c vlen' off' v',
+    fst (read_value H mvl mode txlog vlogs c vlen' off' (H v)) = Ok v' ->
     v' = v \/ (vlen' = 0 /\ v' = []) \/ Collision.
 Proof.
-  intros mvl mode txlog vlogs vlen' off' v'. unfold read_value.
+  intros mvl mode txlog vlogs c vlen' off' v'. unfold read_value.
   destruct (N.eqb_spec vlen' 0) as [Z|NZ].
-  - intros E. right; left. split; congruence.
+  - cbn [fst]. intros E. right; left. split; congruence.
   - destruct (mvl <? vlen'); [discriminate|].
     intros E. apply read_value_at_ok in E as [_ E]. apply H_inj in E as [E|C]; auto.
 Qed.
 
+(* ExportTx never turns a "truncated" run back into a full one *)
+Lemma export_trunc_stays mvl mode txlog vlogs : forall es c i l,
+  fst (export_values H true mvl mode txlog vlogs c es i true) <> Ok (false, l).
+Proof.
+  induction es as [|e es IH]; intros c i l; cbn [export_values]; [cbn; congruence|].
+  destruct (mvl <? e_vlen e); [discriminate|].
+  destruct (read_value_at H true mode txlog vlogs c (e_vlen e) (e_voff e) (e_hval e)) as [rv c1].
+  destruct rv as [w|code|]; [discriminate| |discriminate].
+  destruct (code =? EEOF); [|discriminate]. cbn [negb andb].
+  destruct (export_values H true mvl mode txlog vlogs c1 es (i + 1) true) as [rr c2] eqn:X.
+  cbn [fst]. destruct rr as [[t l0]| |]; try discriminate.
+  intros Y. apply (IH c1 (i + 1) l0). rewrite X. cbn [fst]. congruence.
+Qed.
+
 (* ExportTx: when it does export values (flag "truncated" off), they are the committed ones even
-   if the (vlen, off) pairs were altered: readValueAt checks the digest also for vlen = 0 *)
-Theorem export_values_sound mvl mode txlog vlogs : forall es vs i l,
+   if the (vlen, off) pairs were altered and whatever the cache holds: readValueAt checks the digest
+   also for vlen = 0 *)
+Theorem export_values_sound mvl mode txlog vlogs : forall es vs c i l,
   map (e_hval) es = map H vs ->
-  export_values H true mvl mode txlog vlogs es i false = Ok (false, l) ->
+  fst (export_values H true mvl mode txlog vlogs c es i false) = Ok (false, l) ->
   l = vs \/ Collision.
 Proof.
-  induction es as [|e es IH]; intros vs i l Hh E.
-  - destruct vs; [|discriminate]. simpl in E. left; congruence.
+  induction es as [|e es IH]; intros vs c i l Hh E.
+  - destruct vs; [|discriminate]. cbn in E. left; congruence.
   - destruct vs as [|v vs]; [discriminate|]. simpl in Hh. injection Hh as Hv Hh.
     cbn [export_values] in E. destruct (mvl <? e_vlen e); [discriminate|].
-    destruct (read_value_at H true mode txlog vlogs (e_vlen e) (e_voff e) (e_hval e)) as [w|c|] eqn:R.
-    3: discriminate.
-    + inv_bind E as [t l0] name E0.
+    destruct (read_value_at H true mode txlog vlogs c (e_vlen e) (e_voff e) (e_hval e)) as [rv c1] eqn:R.
+    destruct rv as [w|code|]; [| |discriminate].
+    + destruct (export_values H true mvl mode txlog vlogs c1 es (i + 1) false) as [rr c2] eqn:X.
+      cbn [fst] in E. destruct rr as [[t l0]| |]; try discriminate.
       assert (t = false) by congruence. assert (l = w :: l0) by congruence. subst.
-      apply read_value_at_ok in R as [_ R]. rewrite Hv in R.
-      apply H_inj in R as [R|C]; [|right; exact C].
-      destruct (IH vs _ _ Hh E0) as [->|C]; [left; congruence | right; exact C].
-    + destruct (c =? EEOF); [|discriminate].
+      assert (R' : fst (read_value_at H true mode txlog vlogs c (e_vlen e) (e_voff e) (e_hval e)) = Ok w)
+        by (rewrite R; reflexivity).
+      apply read_value_at_ok in R' as [_ R']. rewrite Hv in R'.
+      apply H_inj in R' as [R'|C]; [|right; exact C].
+      destruct (IH vs c1 (i + 1) l0 Hh) as [->|C]; [rewrite X; reflexivity | left; congruence | right; exact C].
+    + destruct (code =? EEOF); [|discriminate].
       destruct (negb false && (0 <? i)); [discriminate|].
-      inv_bind E as [t l0] name E0. exfalso.
-      assert (Tr : forall es i l, export_values H true mvl mode txlog vlogs es i true <> Ok (false, l)).
-      { clear. induction es as [|e es IH]; intros i l; cbn [export_values]; [congruence|].
-        destruct (mvl <? e_vlen e); [discriminate|].
-        destruct (read_value_at H true mode txlog vlogs (e_vlen e) (e_voff e) (e_hval e)) as [w|c|];
-          [discriminate| |discriminate].
-        destruct (c =? EEOF); [|discriminate]. cbn [negb andb].
-        destruct (export_values H true mvl mode txlog vlogs es (i + 1) true) as [[t l0]| |] eqn:X;
-          cbn [bind]; try discriminate.
-        intros Y. apply (IH (i + 1) l0). rewrite X. congruence. }
-      apply (Tr es (i + 1) l0). rewrite E0. congruence.
+      destruct (export_values H true mvl mode txlog vlogs c1 es (i + 1) true) as [rr c2] eqn:X.
+      cbn [fst] in E. destruct rr as [[t l0]| |]; try discriminate.
+      exfalso. apply (export_trunc_stays mvl mode txlog vlogs es c1 (i + 1) l0). rewrite X. cbn [fst]. congruence.
 Qed.
 
 End Hash.
